@@ -177,6 +177,15 @@ def onRequestComplete (env : Env) (cfg : Cfg) (reqPath : Option Bytes) : Outcome
     | none => .exc none
     | some s => serve env cfg.dir s
 
+/-- `Url.from_bytes` + `HttpParser.http_handler_protocol`: a request reaches the
+    web-server plugin iff its target starts with one `/` but not with `//`
+    (then `request.path` is the target verbatim); everything else carries a
+    host and belongs to the proxy plugin. -/
+def reachesWeb : Bytes → Bool
+  | 47 :: 47 :: _ => false
+  | 47 :: _ => true
+  | _ => false
+
 /-! ### Specification side, written independently of `normpath`
     (RFC 3986 §5.2.4 "remove dot segments" as a plain stack machine over the
     segments of the request path, started at the components of the root). -/
